@@ -1523,6 +1523,22 @@ func TestReplay(t *testing.T) {
 	if p == "" {
 		t.Skip("VERIF_REPLAY not set")
 	}
+	var probe struct {
+		Kind string `json:"kind"`
+	}
+	if err := vstat.LoadReplay(p, &probe); err != nil {
+		t.Fatal(err)
+	}
+	if probe.Kind == "binary" {
+		var bc BinCase
+		if err := vstat.LoadReplay(p, &bc); err != nil {
+			t.Fatal(err)
+		}
+		if err := runBinCase(bc); err != nil {
+			t.Fatalf("%v", err)
+		}
+		return
+	}
 	var c Case
 	if err := vstat.LoadReplay(p, &c); err != nil {
 		t.Fatal(err)
